@@ -191,7 +191,7 @@ func bodyBytes(r *rand.Rand, n int) []byte {
 	return b
 }
 
-var invalidForms = []string{"bad-cl", "nul-in-value", "two-hosts", "garbage-line", "space-before-colon", "too-large", "bad-version", "cl-twice"}
+var invalidForms = []string{"bad-cl", "nul-in-value", "two-hosts", "garbage-line", "space-before-colon", "too-large", "bad-version", "cl-twice", "junk-after-version"}
 
 func genMsg(r *rand.Rand, tag string, conf srvConf, nonClosing bool) *msgSpec {
 	kind := pickKind(r, nonClosing)
@@ -319,6 +319,8 @@ func genMsg(r *rand.Rand, tag string, conf srvConf, nonClosing bool) *msgSpec {
 			body = []byte("only-a-little")
 		case "bad-version":
 			fmt.Fprintf(&h.b, "GET %s HTTP/9.9\r\nHost: %s\r\n", target, host)
+		case "junk-after-version":
+			fmt.Fprintf(&h.b, "GET %s HTTP/1.1 junk\r\nHost: %s\r\n", target, host)
 		case "cl-twice":
 			fmt.Fprintf(&h.b, "POST %s HTTP/1.1\r\nHost: %s\r\nContent-Length: 2\r\nContent-Length: 3\r\n", target, host)
 			body = []byte("abc")
@@ -372,6 +374,12 @@ func genHistory(r *rand.Rand) *history {
 		}
 		for i := 0; i < n; i++ {
 			cs.Msgs = append(cs.Msgs, genMsg(r, fmt.Sprintf("/t%dx%d", c, i), h.Conf, last))
+		}
+		for _, m := range cs.Msgs {
+			// byte-wise delivery of 8-20 KB bodies only multiplies the scripted conn's event log
+			if (m.Kind == "big" || m.Kind == "bigchunked") && (cs.Frag == "1" || cs.Frag == "13") {
+				cs.Frag = "1000"
+			}
 		}
 		if last || r.Intn(3) == 0 {
 			cs.Msgs = append(cs.Msgs, cleanGET(fmt.Sprintf("/t%dx%dclean", c, len(cs.Msgs))))
